@@ -1522,7 +1522,7 @@ method or constructor of some type."""
             if (first_arg is not None) and first_arg.gi_name == origin_node.gi_name:
                 return False
 
-        if isinstance(target, ast.Class):
+        if isinstance(target, ast.Class) and isinstance(origin_node, ast.Class):
             parent = origin_node
             while parent:
                 if parent == target:
